@@ -105,7 +105,13 @@ class MultiTargetMCSU2(Gate):
                     self.definition.h(self.target[idx])
 
         else:
-            self.definition = Ldmcsu(self.unitaries, self.num_controls)
+            self.definition = QuantumCircuit(self.controls, self.target)
+            self.definition.append(
+                Ldmcsu(
+                    self.unitaries, len(self.controls), ctrl_state=self.ctrl_state
+                ),
+                [*self.controls, *self.target],
+            )
 
     def clinear_depth_mcv(self, general_su2_optimization=False):
         """
